@@ -162,8 +162,10 @@ def run(ctx):
     if quick:
         mc = {"classes": cl, "sizes": ", ".join(map(str, sorted({0, b0, b0 + 1, limit, limit + 1}))), "maxids": 9, "maxlive": 3, "aux": "1"}
     else:
-        mc = {"classes": cl, "sizes": ", ".join(map(str, sorted({0, b0, b0 + 1, bounds[len(bounds) // 2], limit, limit + 1, limit + 2}))),
-              "maxids": 10, "maxlive": 3, "aux": "0, 1"}
+        mc = {"classes": cl, "sizes": ", ".join(map(str, sorted({0, b0, b0 + 1, limit, limit + 1}))), "maxids": 11, "maxlive": 3, "aux": "1"}
+        # a second, smaller run in which a block may also come without an auxiliary allocation
+        mc2 = {"classes": cl, "sizes": "%d, %d" % (b0, limit + 1), "maxids": 6, "maxlive": 3, "aux": "0, 1"}
+        ctx.model_check("StrCache", ctx.write_cfg("MC_StrCache_aux", MC % mc2), workers=8, timeout=1500, heap="8g")
     r = ctx.model_check("StrCache", ctx.write_cfg("MC_StrCache", MC % mc), workers=8, timeout=1500, heap="8g")
     ctx.notes["model"] = {"distinct_states": r.distinct, "depth": r.depth, "constants": mc}
 
